@@ -403,6 +403,8 @@ def run(tier):
     for (ji, ep, info), ev in list(zip(owners, traces))[:2]:
         rep.sample({"flavour": FL.fname(flavs[info["sc"]]), "sched": info["sched"], "mitm": info["mitm"], "endpoint": ep,
                     "n_events": len(ev), "events_head": ev[:14]})
+    from . import c14asm
+    c14asm.part(rep, tier)
     rep.notes["scenario_runs"] = len(jobs)
     rep.notes["socket_events_validated"] = sum(len(t) for t in traces)
     return rep.finish()
